@@ -195,6 +195,14 @@ func analyseKernel(ctx *Ctx, fn *ssa.Function, nverts int, interp string) (*kern
 				}
 			}
 			stride, off, table = st, o, s.Idx.S
+			// a sliding window over the row: `for w := row; len(w) >= n; w = w[n:]` reads w[k]
+			if vr, ok := valRecs[s.Idx.S]; ok && st == 0 {
+				if w, isSlice := vr[1].(*SliceV); isSlice && w.Sym != nil && w.Sym.Path == s.Idx.S && w.Lo > 0 {
+					if row, isSym := vr[0].(*Sym); isSym {
+						stride, table = w.Lo, row.Path
+					}
+				}
+			}
 		case s.Idx.Op == "a":
 			// a row of primitives, each a small array of point indices: row[j][k]
 			m := rePrimRow.FindStringSubmatch(s.Idx.S)
